@@ -88,6 +88,7 @@ func (g *Gen) call(st *State, v ssa.Value, c *ssa.CallCommon, ins ssa.Instructio
 	ct := g.eng.db.Contracts[key]
 	if ct == nil {
 		if g.eng.isPureExtern(key) {
+			g.bumpFrontier(st)
 			rs := g.freshResults(st, "pure", sig)
 			for i, r := range rs {
 				g.assumeKnownRefAfterCall(st, sig.Results().At(i).Type(), r)
@@ -233,18 +234,17 @@ func (g *Gen) applyContract(st *State, v ssa.Value, ct *Contract, fn *ssa.Functi
 	// havoc
 	if ct.ModAll {
 		g.havocAll(st)
-	} else if !ct.Pure {
-		for _, loc := range ct.Modifies {
-			if err := g.havocLocation(st, pre, loc); err != nil {
-				g.refusef("call %s: modifies %q: %v", short, loc, err)
-				return
+	} else {
+		if !ct.Pure {
+			for _, loc := range ct.Modifies {
+				if err := g.havocLocation(st, pre, loc); err != nil {
+					g.refusef("call %s: modifies %q: %v", short, loc, err)
+					return
+				}
 			}
 		}
-		// callee may allocate
-		fr := g.frontier(st)
-		nf := g.sc.fresh("frontier", "Int")
-		g.sc.emit("(assert (>= %s %s))", nf, fr)
-		st.mem["!frontier"] = nf
+		// callee may allocate (also a "pure" one: pure = no effect on pre-existing state)
+		g.bumpFrontier(st)
 	}
 	rs := g.freshResults(st, sanitize(short), sig)
 	for i, r := range rs {
@@ -537,6 +537,7 @@ func (g *Gen) appendOp(st *State, v ssa.Value, c *ssa.CallCommon, pos token.Pos)
 		g.sc.emit("(assert (forall ((i Int)) (! (=> (and (<= 0 i) (< i %s)) (= (select %s %s) (ite (< i (slen %s)) (select %s %s) (select %s %s)))) :pattern ((select %s %s)))))",
 			newLen, n, dst, s, cur, src1, cur, src2, n, dst)
 		st.mem[tag] = n
+		g.sc.oldEq[n] = g.sc.oldBase(cur)
 	}
 	leaf(sl.Elem(), func(b string) string { return b }, "")
 }
@@ -818,11 +819,8 @@ func (g *Gen) applySiteContract(st *State, v ssa.Value, ct *Contract, sig *types
 				return
 			}
 		}
-		fr := g.frontier(st)
-		nf := g.sc.fresh("frontier", "Int")
-		g.sc.emit("(assert (>= %s %s))", nf, fr)
-		st.mem["!frontier"] = nf
 	}
+	g.bumpFrontier(st)
 	rs := g.freshResults(st, "site", sig)
 	for i, r := range rs {
 		g.assumeKnownRef(st, sig.Results().At(i).Type(), r)
@@ -884,4 +882,11 @@ func (g *Gen) bindLocalsForSite(e *Env, st *State) {
 			e.vars[name] = tv{t: t, ty: goT(vs[0].Type())}
 		}
 	}
+}
+
+func (g *Gen) bumpFrontier(st *State) {
+	fr := g.frontier(st)
+	nf := g.sc.fresh("frontier", "Int")
+	g.sc.emit("(assert (>= %s %s))", nf, fr)
+	st.mem["!frontier"] = nf
 }
